@@ -31,6 +31,27 @@ harness/c03_accel.c).  There the warning is expected; the outputs must still
 equal the references and the other variants, and the wrappers must not see a
 single call of the disabled implementation afterwards, from any operation
 (AES-CTR included): otherwise `fallback-inconsistent:<impl>` is reported.
+
+"Faulty AES-NI" variants (driver flag --fault=aesni-kx256 | aesni-kx128 |
+aesni-blk256): the AES-NI implementation is PERSISTENTLY wrong for one key size
+only (every 32-byte / every 16-byte key gets one wrong round-key bit; every
+block encrypted under a 14-round key gets one wrong bit), as on a CPU or
+emulator whose AES instructions misbehave for that key size.  The library's
+self-test has one vector per key size, so it has to notice either fault; the
+variants are judged exactly like the "self-test fails" ones (warning expected,
+every answer equal to the references and to all other variants, no AES-NI call
+after the warning).
+
+Allocation-failure histories (driver mode `oomhist`, harness/common/
+aes_oomhist.[ch], shared with vlib/c02.py): which AES implementation a process
+uses is decided once, and the two implementations have different expanded-key
+formats.  For every history of OOM_SPECS and k = 1..N one FRESH process runs
+the history with the k-th allocation attempt of the library failing once
+(N = attempts of a fault-free run), in AES-NI variants and in portable ones.
+A failure that hits the start-up self-test settles the choice (software) for
+the process: every value produced afterwards must equal refaes, nothing may
+crash, and an AES-NI entry point called after the "Disabling HW_X86_AESNI"
+warning is `fallback-inconsistent:aesni`.
 """
 import hashlib
 import hmac
@@ -41,8 +62,9 @@ import threading
 import zlib
 
 from . import core
-from .c01 import crc_expected, crc_remainder
+from .c01 import crc_expected, crc_remainder, huge_value
 from .c02 import FAR_DS, FAR_EXPS, FAR_KINDS, far_items, far_stream
+from .c02 import OOM_ANS, OOM_SPECS
 
 SRCS = ['alg/sha256.c', 'alg/sha256_shani.c', 'alg/sha256_sse2.c',
         'alg/crc32c.c', 'alg/crc32c_sse42.c',
@@ -67,6 +89,10 @@ ENTRY = {'shani': 'SHA256_Transform_shani', 'sse2': 'SHA256_Transform_sse2',
 COUNTERS = ['shani', 'sse2', 'sse42', 'aesni_kx', 'aesni_blk', 'aesni_ctr', 'ossl_key',
             'ossl_enc', 'stub_detect', 'sse42_short', 'warnings'] + \
     ['inj_' + i for i in IMPLS] + ['after_' + i for i in IMPLS]
+AES_FAULTS = ['aesni-kx256', 'aesni-kx128', 'aesni-blk256']
+# executables (by variant name) that run the allocation-failure histories
+OOM_VARIANTS = ['build[shani+sse2+sse42_64+aesni]', 'build[aesni]', 'full-absent[aesni]',
+                'build[none]']
 MARKER = re.compile(r'C03-USED-AFTER-DISABLE((?: [a-z0-9]+:\w+)+) disabled=(\S+)')
 
 
@@ -124,9 +150,13 @@ def all_variants(host):
     """-> (variants, skipped).  variant = dict(name, cpu, stubs, expect)."""
     out = []
 
-    def add(name, cpu, stubs=(), fails=()):
+    def add(name, cpu, stubs=(), fails=(), faults=()):
+        # faults: persistent partial faults of the AES-NI implementation
+        # (--fault=...); the self-test of 'aesni' must fail because of them
         out.append({'name': name, 'cpu': list(cpu), 'stubs': list(stubs), 'fails': list(fails),
-                    'args': ['--fail-selftest=' + ','.join(fails)] if fails else [],
+                    'faults': list(faults),
+                    'args': ['--fault=' + ','.join(faults)] if faults else
+                            ['--fail-selftest=' + ','.join(fails)] if fails else [],
                     'expect': expected_paths(cpu, stubs, host, fails)})
 
     # (a) every compile-time subset
@@ -178,6 +208,13 @@ def all_variants(host):
     add('build[sse2]-selftest-fails[sse2]', BASE + ['X86_SSE2'], fails=['sse2'])
     add('build[sse42_32]-selftest-fails[sse42]', BASE + ['X86_SSE42'], fails=['sse42'])
     add('build[aesni]-selftest-fails[aesni]', BASE + ['X86_AESNI'], fails=['aesni'])
+    # (e) compiled in, the CPU says "present", but the AES-NI implementation is
+    # persistently wrong for ONE key size (all keys of that size, always): the
+    # self-test has a vector per key size and must disable AES-NI
+    for f in AES_FAULTS:
+        add('full-faulty[%s]' % f, FULL, fails=['aesni'], faults=[f])
+    add('build[aesni]-faulty[aesni-kx256]', BASE + ['X86_AESNI'], fails=['aesni'],
+        faults=['aesni-kx256'])
     keep, skipped = [], []
     for v in out:
         need = set()
@@ -301,7 +338,7 @@ def build(ctx, variants):
                 raise core.Inconclusive('source file missing: ' + src)
             jobs.append((cache, src, base + core.CPU_CFLAGS.get(s, [])))
             index.append(vi)
-        for s in ('c03_accel.c', 'common/refaes.c'):
+        for s in ('c03_accel.c', 'common/refaes.c', 'common/aes_oomhist.c'):
             jobs.append((cache, os.path.join(core.HARNESS, s), gnu))
             index.append(vi)
     objs = core.tmap(_compile_job, jobs, threads=core.NCPU)
@@ -745,12 +782,202 @@ def run_variants(variants, cases, timeout=1200):
                               {'line': c['line'], 'kind': c['kind'], 'expect': c['expect'],
                                'meta': {'variant': g[-1][1][0]}},
                               'variants disagree: ' + w))
+    # answers to the single calls of 2^32+d bytes (`W` lines), for the
+    # comparison across the variants that ran them in separate tasks
+    res['huge_answers'] = [(cases[i]['line'], base[i][0], base[i][1]) for i in sorted(base)
+                           if i < len(cases) and cases[i]['line'].startswith('W ')]
     return res
 
 
 def _shard(a):
     variants, seed, tier, i, n = a
     return run_variants(variants, gen_cases(seed, tier, i, n))
+
+
+# ---- one single Update call of 2^32 + d bytes (CRC32C; thorough: also SHA-256) ----
+def huge_cases(seed, tier):
+    """-> (crc cases, sha cases).  The message starts <al> bytes into a region in
+    which one 2 MiB memory file (a random 4 KiB block repeated) is mapped 2049
+    times; expected values: the CRC algebra evaluated on the periodic structure
+    (vlib/c01.py crc_expected_periodic), hashlib fed the same periodic bytes."""
+    rnd = random.Random(seed ^ 0x4616)
+    blk = rbytes(rnd, 4096)
+    al = rnd.randrange(16)
+    d = rnd.choice([rnd.randrange(1, 64), rnd.randrange(1, 3000), rnd.randrange(1, 1 << 20)])
+
+    def case(alg, mode, exp):
+        return {'kind': alg, 'line': 'W %d %s %s %d %s' % (al, alg, mode, d, blk.hex()),
+                'expect': exp, 'sig': sig('W', alg, mode), 'nt': True}
+    exp = huge_value('crc32c', blk, al, d)
+    crc = [case('crc32c', 'one', exp), case('crc32c', 'gib', exp)]
+    sha = [case('sha256', 'one', huge_value('sha256', blk, al, d))] if tier != 'quick' else []
+    return crc, sha
+
+
+def huge_plan(variants, tier):
+    """-> [(variant name, runs CRC32C, runs SHA-256)].  Quick: one variant per
+    distinct CRC32C situation (path selected, SSE4.2 compiled in as 32/64 bit,
+    detector substituted, self-test made to fail, CPUID); thorough: every
+    variant, and SHA-256 on one variant per distinct SHA-256 situation."""
+    def crc_key(v):
+        return (v['expect']['crc'], 'X86_SSE42' in v['cpu'], 'X86_SSE42_64' in v['cpu'],
+                'sse42' in v['stubs'], 'sse42' in v['fails'], 'X86_CPUID' in v['cpu'])
+
+    def sha_key(v):
+        return (v['expect']['sha'], 'X86_SHANI' in v['cpu'], 'X86_SSSE3' in v['cpu'],
+                'X86_SSE2' in v['cpu'], tuple(s for s in v['stubs'] if s in ('shani', 'ssse3', 'sse2')),
+                tuple(f for f in v['fails'] if f in ('shani', 'sse2')), 'X86_CPUID' in v['cpu'])
+    seen_c, seen_s, plan = set(), set(), []
+    for v in variants:
+        c = tier != 'quick' or crc_key(v) not in seen_c
+        s = tier != 'quick' and sha_key(v) not in seen_s
+        seen_c.add(crc_key(v))
+        seen_s.add(sha_key(v))
+        if c or s:
+            plan.append((v['name'], c, s))
+    return plan
+
+
+def _huge(a):
+    variant, cases = a
+    return run_variants([variant], cases, timeout=3600)
+
+
+def huge_finish(ctx, hres):
+    """Across the tasks: every variant's answer to the same line must be the same."""
+    by_line = {}
+    for r in hres:
+        for line, ans, vname in r['huge_answers']:
+            by_line.setdefault(line, {}).setdefault(ans, []).append(vname)
+    for line, groups in by_line.items():
+        t = line.split()
+        ctx.count('single_call_2^32_%s_%s_answers' % (t[2], t[3]), sum(map(len, groups.values())))
+        if len(groups) > 1:
+            g = sorted(groups.items(), key=lambda kv: -len(kv[1]))
+            ctx.alarm('variant-diff:%s-huge' % t[2],
+                      {'line': line, 'kind': t[2], 'expect': '', 'meta': {'variant': g[-1][1][0]}},
+                      'variants disagree on %s bytes in %s: ' % ('2^32+' + t[4], 'ONE call' if t[3] == 'one'
+                                                                 else 'calls of 2^30 bytes') +
+                      '; '.join('%s from %s' % (a, ', '.join(n[:8])) for a, n in g))
+    ctx.count('single_call_2^32_variants', len(hres))
+    if not by_line and not ctx.violations and not ctx.known_hits:
+        ctx.note_inconclusive('no single call of 2^32+d bytes was answered')
+
+
+# ---- allocation-failure histories of the AES interface, one fresh process each ----
+def oom_case(vname, spec, k, seed):
+    return {'kind': 'oomhist', 'line': 'oomhist %d %s %d' % (k, spec, seed), 'expect': '',
+            'sig': sig('O', vname, spec, k), 'nt': k > 0,
+            'meta': {'variant': vname, 'oomhist': [k, spec, seed]}}
+
+
+def oom_judge_for(v):
+    impl = v['expect']['aes']
+
+    def judge(c, ans):
+        k, spec, _ = c['meta']['oomhist']
+        m = OOM_ANS.match(ans)
+        what = 'variant %s, history %s in a fresh process, allocation attempt %d of the library ' \
+            'fails once' % (v['name'], spec, k)
+        if not m:
+            return ('oracle:oomhist:' + impl, '%s: unparsable answer %r' % (what, ans[:200]))
+        z = parse_z(ans[ans.index(' Z '):].strip()) if ' Z ' in ans else {}
+        if int(z.get('after_aesni', 0)) and 'HW_X86_AESNI' in z.get('disabled', ''):
+            return ('fallback-inconsistent:aesni',
+                    '%s: the library printed "Disabling HW_X86_AESNI due to failed self-test" '
+                    '(the self-test could not allocate) and afterwards called AES-NI entry points '
+                    '%s times (kx=%s blk=%s ctr=%s; OpenSSL keys=%s): the choice is made once per '
+                    'process, keys of the two implementations have different formats; events: %s'
+                    % (what, z['after_aesni'], z.get('aesni_kx'), z.get('aesni_blk'),
+                       z.get('aesni_ctr'), z.get('ossl_key'), m.group(4)[:400]))
+        bad = [t for t in m.group(4).split(',') if 'BAD' in t or 'SPURIOUS' in t]
+        if bad or int(m.group(3)):
+            return ('oracle:oomhist:' + impl, '%s: %s (step+key=BAD@offset:library:refaes; '
+                    'events: %s)' % (what, ' '.join(bad)[:400], m.group(4)[:500]))
+        return None
+    return judge
+
+
+def run_oom(a):
+    """All processes of one (variant, history): k = 0 counts the attempts, then
+    one process per failing attempt.  -> shard-like result."""
+    v, spec, seed = a
+    res = {'evals': 0, 'sigs': set(), 'alarms': [], 'harness': [], 'oom': {}}
+    box = {}
+    judge = oom_judge_for(v)
+
+    def one(k):
+        c = oom_case(v['name'], spec, k, seed)
+        box.clear()
+
+        def j(case, ans):
+            box['ans'] = ans
+            return judge(case, ans)
+
+        r = core.line_shard(v['exe'], [c], judge=j, timeout=300,
+                            args=['oomhist', str(k), spec, str(seed)])
+        res['evals'] += r['evals']
+        res['sigs'] |= r['sigs']
+        res['alarms'] += r['alarms']
+        # died (sanitizer report, assert) after an AES-NI call that followed the warning
+        for (key, case, w) in r['alarms']:
+            mm = MARKER.search(w if isinstance(w, str) else '')
+            if mm and 'HW_X86_AESNI' in mm.group(2).split(','):
+                res['alarms'].append((
+                    'fallback-inconsistent:aesni', case,
+                    'variant %s, history %s, allocation attempt %d fails once: after "Disabling '
+                    'HW_X86_AESNI due to failed self-test" the library still called%s; the process '
+                    'then died with %s' % (v['name'], spec, k, mm.group(1), key)))
+        ans = box.get('ans', '')
+        m = OOM_ANS.match(ans)
+        if not m:
+            return None
+        z = parse_z(ans[ans.index(' Z '):].strip()) if ' Z ' in ans else {}
+        return (int(m.group(1)), int(m.group(2)), m.group(4).split(','), z)
+
+    info = {'attempts': None, 'processes': 1, 'reported_null': 0, 'absorbed': 0,
+            'selftest_warnings': 0, 'aesni_calls_after_warning': 0,
+            'processes_on_aesni': 0, 'processes_on_openssl': 0}
+    res['oom']['%s %s' % (v['name'], spec)] = info
+    r0 = one(0)
+    if r0 is None:
+        return res
+    n, nf, ev0, z0 = r0
+    info['attempts'] = n
+    if nf or n < 1 or any(t.endswith('=null') for t in ev0):
+        res['harness'].append('oomhist %s %s: the fault-free run refused %d of %d attempts'
+                              % (v['name'], spec, nf, n))
+        return res
+    # the fault-free history must run on the implementation the variant intends
+    on_aesni = int(z0.get('aesni_blk', 0)) > 2 and int(z0.get('aesni_ctr', 0)) > 0
+    if on_aesni != (v['expect']['aes'] == 'aesni') or \
+            (not on_aesni and int(z0.get('ossl_enc', 0)) <= 2):
+        res['harness'].append('oomhist %s %s: fault-free run used %s, intended %s'
+                              % (v['name'], spec, z0, v['expect']['aes']))
+    for k in range(1, n + 1):
+        r = one(k)
+        info['processes'] += 1
+        if r is None:
+            continue
+        if r[1] != 1:
+            res['harness'].append('oomhist %s %s: attempt %d of %d was not reached'
+                                  % (v['name'], spec, k, n))
+            continue
+        nulls = sum(1 for t in r[2] if t.endswith('=null'))
+        info['reported_null'] += nulls
+        info['absorbed'] += (nulls == 0)
+        z = r[3]
+        info['selftest_warnings'] += ('HW_X86_AESNI' in z.get('disabled', ''))
+        info['aesni_calls_after_warning'] += int(z.get('after_aesni', 0))
+        if int(z.get('aesni_blk', 0)) > 2:
+            info['processes_on_aesni'] += 1
+        elif int(z.get('ossl_enc', 0)) > 2:
+            info['processes_on_openssl'] += 1
+    return res
+
+
+def _task(t):
+    return run_oom(t[1]) if t[0] == 'O' else _huge(t[1]) if t[0] == 'W' else _shard(t[1])
 
 
 def check_paths(ctx, variants, counters):
@@ -830,6 +1057,8 @@ def check_paths(ctx, variants, counters):
             'processes': S}
         if fails:
             table[v['name']]['selftest_made_to_fail'] = fails
+            if v.get('faults'):
+                table[v['name']]['persistent_fault'] = v['faults']
             table[v['name']]['expected_warnings_seen'] = sorted(
                 w for w in warned if IMPL_OF_HW.get(w) in fails)
             table[v['name']]['calls_after_disable'] = sum(c.get('after_' + f, 0) for f in fails)
@@ -868,12 +1097,40 @@ def finish(ctx, variants, skipped, res):
     ctx.cov['skipped_variants'] = skipped
     ctx.count('variants_run', len(variants))
     ctx.count('variants_selftest_fails', sum(1 for v in variants if v.get('fails')))
+    ctx.count('variants_persistently_faulty_aesni', sum(1 for v in variants if v.get('faults')))
     for p in ('shani', 'sse2', 'soft'):
         ctx.count('variants_sha256_' + p, sum(1 for v in variants if v['expect']['sha'] == p))
     for p in ('sse42-64', 'sse42-32', 'soft'):
         ctx.count('variants_crc32c_' + p, sum(1 for v in variants if v['expect']['crc'] == p))
     for p in ('aesni', 'soft'):
         ctx.count('variants_aes_' + p, sum(1 for v in variants if v['expect']['aes'] == p))
+
+
+def oom_finish(ctx, ov, oomres):
+    core.merge(ctx, oomres)
+    oom = {}
+    for r in oomres:
+        oom.update(r['oom'])
+        for h in r['harness']:
+            ctx.note_inconclusive('allocation-failure histories: ' + h)
+    ctx.cov['alloc_failure_histories'] = {
+        'steps': 'a/A key 1 from 16/32 bytes, b/B key 2, i crypto_aes_can_use_intrinsics, e blocks, '
+                 's crypto_aesctr_init+stream calls+free, u crypto_aesctr_buf twice, l crypto_aesctr_'
+                 'alloc+init2 per key+init2(NULL), x/y free key 1/2, m library blocks 8 mod 16',
+        'variants': {v['name']: 'intended AES path ' + v['expect']['aes'] for v in ov},
+        'per_variant_and_history': oom}
+    ctx.count('oomhist_histories', len(oom))
+    ctx.count('oomhist_processes', sum(i['processes'] for i in oom.values()))
+    ctx.count('oomhist_failures_absorbed_by_selftest_fallback',
+              sum(i['absorbed'] for i in oom.values()))
+    ctx.count('oomhist_calls_that_reported_failure', sum(i['reported_null'] for i in oom.values()))
+    ctx.count('oomhist_selftest_warnings', sum(i['selftest_warnings'] for i in oom.values()))
+    missing = [k for k in ('%s %s' % (v['name'], spec) for v in ov for spec in OOM_SPECS)
+               if k not in oom or not oom[k]['attempts'] or
+               oom[k]['processes'] != oom[k]['attempts'] + 1]
+    if (missing or not ov) and not ctx.violations and not ctx.known_hits:
+        ctx.note_inconclusive('allocation-failure histories not fully executed: %r'
+                              % (missing or 'no executable'))
 
 
 def slim_variants(variants):
@@ -890,8 +1147,22 @@ def run(ctx):
     n = core.NCPU
     seeds = core.shard_seeds(ctx.seed, 'C03', n)
     sv = slim_variants(variants)
-    res = core.pmap(_shard, [(sv, seeds[i], ctx.tier, i, n) for i in range(n)])
-    finish(ctx, variants, skipped, res)
+    # allocation-failure histories of the AES interface: one task per
+    # (executable, history), every process fresh; they run beside the shards
+    ov = [v for v in sv if v['name'] in OOM_VARIANTS]
+    ooms = [('O', (v, spec, ctx.seed)) for v in ov for spec in OOM_SPECS]
+    # one single Update call of 2^32+d bytes: one task per selected variant
+    # (the longest tasks, so they start first)
+    hcrc, hsha = huge_cases(ctx.seed, ctx.tier)
+    svn = {v['name']: v for v in sv}
+    huges = [('W', (svn[name], (hcrc if c else []) + (hsha if s else [])))
+             for name, c, s in huge_plan(variants, ctx.tier)]
+    allres = core.pmap(_task, huges + ooms + [('S', (sv, seeds[i], ctx.tier, i, n)) for i in range(n)])
+    hres, allres = allres[:len(huges)], allres[len(huges):]
+    oomres, res = allres[:len(ooms)], allres[len(ooms):]
+    finish(ctx, variants, skipped, res + hres)
+    huge_finish(ctx, hres)
+    oom_finish(ctx, ov, oomres)
     far = [f for r in res for f in r['far']]
     per_b, per_k = {}, {}
     for f in far:
@@ -946,13 +1217,36 @@ def run(ctx):
         'NULL); there the "Disabling HW_..." warning is expected, outputs must still equal the '
         'references and all other variants, and any later call of an entry point of the disabled '
         'implementation (AES-CTR included) is the violation fallback-inconsistent:<impl>.  In every '
-        'other variant a "Disabling HW_..." warning is a violation.  '
+        'other variant a "Disabling HW_..." warning is a violation.  (e) "faulty AES-NI": as (d), but '
+        'the AES-NI implementation is persistently wrong for ONE key size - ' + ', '.join(AES_FAULTS) +
+        ': every 32-byte / every 16-byte key expanded by crypto_aes_key_expand_aesni gets one wrong '
+        'round-key bit, or every crypto_aes_encrypt_block_aesni under a 14-round key one wrong output '
+        'bit, always, not only in the self-test; judged exactly like (d).  Allocation-failure '
+        'histories (not part of the workload): for ' + str(len(OOM_SPECS)) + ' histories of the AES '
+        'interface (' + ', '.join(OOM_SPECS) + '; steps in alloc_failure_histories) and the '
+        'executables ' + ', '.join(OOM_VARIANTS) + ', a fault-free process counts the N allocation '
+        'attempts of the library, then one FRESH process per k = 1..N runs the history with exactly '
+        'the k-th attempt failing once; NULL only from a call in which an allocation was refused, '
+        'every value produced (all keys, blocks, crypto_aesctr_stream/_buf, re-initialised stream '
+        'objects) equals refaes, no crash, and no AES-NI entry point may be called after a '
+        '"Disabling HW_X86_AESNI" warning (fallback-inconsistent:aesni).  '
+        'Single calls of 2^32+d bytes (separate tasks beside the workload): a message of 2^32+d '
+        'bytes (d random; start 0..15 bytes off a page boundary; one 2 MiB memory file - a random '
+        '4 KiB block repeated - mapped 2049 times back to back, so no 4 GiB are allocated) is given '
+        'to ONE CRC32C_Update call and, as control, in calls of 2^30 bytes; quick: by one variant '
+        'per distinct CRC32C situation (SSE4.2 64-bit / 32-bit / portable: not compiled, detector '
+        'substituted, self-test made to fail, no CPUID), thorough: by every variant, plus ONE '
+        'SHA256_Update call of the same bytes by one variant per distinct SHA-256 situation; '
+        'every answer is compared with the exact value (the CRC algebra evaluated on the periodic '
+        'structure; hashlib fed the same periodic bytes) and across the variants.  '
         'evaluations = answers judged, summed over variants; distinct = distinct (implementation '
         'that ran and implementations disabled by a failed self-test, operation, lengths, '
-        'alignment, partition shape); all cases count as non-trivial')
+        'alignment, partition shape; allocation-failure history: variant, history, k >= 1); all '
+        'cases count as non-trivial')
     ctx.cov['selftest_fails_variants'] = {
-        v['name']: {'made_to_fail': v['fails'], 'must_select': '%s/%s/%s' % (
-            v['expect']['sha'], v['expect']['crc'], v['expect']['aes'])}
+        v['name']: dict({'made_to_fail': v['fails'], 'must_select': '%s/%s/%s' % (
+            v['expect']['sha'], v['expect']['crc'], v['expect']['aes'])},
+            **({'persistent_fault': v['faults']} if v.get('faults') else {}))
         for v in variants if v.get('fails')}
     ctx.cov['sanitizers'] = 'gcc -fsanitize=address,undefined; buffers end at the end of their heap block'
     ctx.assumptions += [
@@ -962,7 +1256,8 @@ def run(ctx):
         'counter block as after n whole blocks), not by streaming; streams end before block 2^60 '
         '(64-bit byte position of the library); behaviour at block 2^64 is not stated and not exercised',
         'a failed self-test is simulated in the harness (first call of the wrapped entry point, '
-        'only if it carries the library\'s self-test vector); the CPU itself is not faulty, so a '
+        'only if it carries the library\'s self-test vector; "faulty AES-NI" variants: the --wrap '
+        'wrapper damages the result of every call for one key size); the CPU itself is not faulty, so a '
         'library that ignored the failure without a warning would make those variants inconclusive, '
         'not violating',
         'the --wrap counters see calls made through the external symbol; '
@@ -974,6 +1269,22 @@ def replay(ctx, case):
     host = host_flags()
     variants, _ = all_variants(host)
     build(ctx, variants)
+    if case.get('kind') == 'oomhist':
+        k, spec, seed = case['meta']['oomhist']
+        vs = [v for v in slim_variants(variants) if v['name'] == case['meta'].get('variant')]
+        if not vs:
+            raise core.Inconclusive('variant %r cannot run here' % case['meta'].get('variant'))
+        c = oom_case(vs[0]['name'], spec, k, seed)
+        r = core.line_shard(vs[0]['exe'], [c], judge=oom_judge_for(vs[0]), timeout=300,
+                            args=['oomhist', str(k), spec, str(seed)])
+        for (key, cs, w) in list(r['alarms']):
+            mm = MARKER.search(w if isinstance(w, str) else '')
+            if mm and 'HW_X86_AESNI' in mm.group(2).split(','):
+                r['alarms'].append(('fallback-inconsistent:aesni', cs,
+                                    'after "Disabling HW_X86_AESNI" the library still called%s; '
+                                    'the process then died with %s' % (mm.group(1), key)))
+        core.merge(ctx, [r])
+        return
     if case.get('kind') == 'counters':
         lines = MINI
         cases = []
